@@ -71,9 +71,16 @@ Fixpoint collapse (s : str) (in_run : bool) : str :=
   end.
 Fixpoint drop_blanks (s : str) : str :=
   match s with c :: r => if is_blank_char c then drop_blanks r else s | [] => [] end.
+(* the comment leader: "--" plus the pattern characters comment_100 may be configured with ("--!", "--|", ...) *)
+Definition is_leader_char (c : chr) : bool := N.eqb c 33 || N.eqb c 124 || N.eqb c 61 || N.eqb c 43 || N.eqb c 35.
+Fixpoint leader (s : str) : str * str :=
+  match s with
+  | c :: r => if is_leader_char c then let '(a, b) := leader r in (c :: a, b) else ([], s)
+  | [] => ([], [])
+  end.
 Definition cnorm (v : str) : str :=
   match v with
-  | 45%N :: 45%N :: r => 45%N :: 45%N :: collapse (drop_blanks r) false
+  | 45%N :: 45%N :: r => let '(p, rest) := leader r in 45%N :: 45%N :: p ++ collapse (drop_blanks rest) false
   | _ => collapse v false
   end.
 Definition comments (l : list atok) : list str := map (fun t => cnorm (a_val t)) (filter is_verbatim l).
@@ -87,11 +94,11 @@ Fixpoint subseq (a b : list str) : bool :=   (* a is a subsequence of b *)
   end.
 Definition c02_edit_removes (old new : list atok) : bool := subseq (comments new) (comments old).
 
-(* C03, layout classes (whitespace, blank line, indent, alignment): every non-layout token keeps identity, role
-   and text (comments: text modulo blanks) *)
+(* C03, layout classes (whitespace, blank line, indent, alignment): every code token keeps identity, role and text;
+   comments keep role and text modulo blanks (a rule may re-create the comment object) *)
 Definition strip_blanks (s : str) : str := filter (fun c => negb (is_blank_char c)) s.
 Definition nonlayout_sig (l : list atok) : list (N * N * str) :=
-  map (fun t => (a_id t, a_role t, if is_code t then a_val t else strip_blanks (a_val t))) (filter (fun t => negb (is_layout t)) l).
+  map (fun t => ((if is_code t then a_id t else 0%N), a_role t, if is_code t then a_val t else strip_blanks (a_val t))) (filter (fun t => negb (is_layout t)) l).
 Definition trip_eqb (x y : N * N * str) : bool :=
   let '(a1, b1, c1) := x in let '(a2, b2, c2) := y in N.eqb a1 a2 && N.eqb b1 b2 && str_eqb c1 c2.
 Fixpoint sig_eqb (a b : list (N * N * str)) : bool :=
